@@ -12,6 +12,8 @@ CheckRt(e) ==
   /\ Report(RoundTrip(e),
             <<"BAD", IF e.parse # "ok" THEN "composed-bytes-rejected"
                      ELSE IF e.n # e.wire_len THEN "composed-bytes-not-consumed" ELSE "parsed-object-differs", l>>)
+  \* field-by-field equal objects are equal for the library's own == / != / hash as well
+  /\ Report(e.eq_ok, <<"BAD", IF e.eq_converse THEN "different-fields-but-objects-compare-equal" ELSE "equal-fields-but-objects-compare-unequal", l>>)
 CheckCanon(e) ==
   Report(Canonical(e),
          <<"BAD", IF e.c1 # "ok" THEN "accepted-input-cannot-be-composed"
